@@ -30,7 +30,7 @@ SPEC = {
              "LeaderFollower(a) / LeaderFollower(b) model objects fiber by fiber, in one shot, and in a random "
              "grouping of consecutive fibers (one real execution per batching mode).  Systematic part: every pair "
              "of subsets of {0..4} as a single fiber, every sequence of two fibers over subsets of {0..2} "
-             "({0..3} thorough), every sequence of three fibers over subsets of {0..1} ({0..2} sampled thorough); "
+             "({0..3} thorough), every sequence of three fibers over subsets of {0..1} ({0..2} thorough); "
              "random part: longer lists, explicit default payloads, empty / disjoint / interleaved / identical "
              "operands.  (ii) `lf`: real leader-follower intersections, leader trace fed to LeaderFollower. "
              "(iii) `swaps`: canonical tensors of 2..4 ranks, Compute.numSwaps at depth 0..2, radix 2..6 and "
